@@ -366,7 +366,10 @@ class Check:
             "violations": len(self.violations),
         }
         os.makedirs(os.path.join(ROOT, "evidence"), exist_ok=True)
-        with open(os.path.join(ROOT, "evidence", f"{self.pid}.json"), "w") as f:
+        # (bin/mutcheck runs the checks against a deliberately broken tree: keep the evidence of the real one)
+        evdir = os.path.join(WORK, "mut-evidence") if os.environ.get("VERIF_NO_EVIDENCE") else os.path.join(ROOT, "evidence")
+        os.makedirs(evdir, exist_ok=True)
+        with open(os.path.join(evdir, f"{self.pid}.json"), "w") as f:
             json.dump(ev, f, indent=1)
         log(f"[{self.pid}] tier={self.tier} states={self.states} traces_ok={self.traces_ok} "
             f"violations={len(self.violations)} known={len(self.known_seen)} wall={wall:.1f}s")
